@@ -3,6 +3,7 @@
 set -e
 cd /verif
 ID=$1
+if [ -n "$(git status --porcelain)" ]; then echo "working tree not clean: commit first"; exit 1; fi
 git merge --no-ff --no-commit prop-$ID >/dev/null 2>&1 || true
 # generated files: take ours then regenerate
 for f in MANIFEST.json known_findings.json; do git checkout --ours -- $f 2>/dev/null || true; done
